@@ -272,7 +272,7 @@ func init() {
 						c.Eval()
 						switch {
 						case n <= 0:
-							if out != nil {
+							if len(out) != 0 { // ("nothing": nil or an empty line string, the statement does not say which)
 								c.Fail("", "Resample with N <= 0 did not return nothing", map[string]interface{}{"case": cs, "output": sv(out)})
 							}
 						case len(in) < 2:
@@ -328,7 +328,7 @@ func init() {
 					c.Eval()
 					switch {
 					case d <= 0:
-						if out != nil {
+						if len(out) != 0 {
 							c.Fail("", "ToInterval with d <= 0 did not return nothing", map[string]interface{}{"case": cs, "output": sv(out)})
 						}
 					case len(in) < 2:
